@@ -721,8 +721,9 @@ class Macro:
         off = len(arguments)
 
         # For information why this is necessary refer to the handling
-        # of caller in the `macro_body` handler in the compiler.
-        found_caller = False
+        # of caller in the `macro_body` handler in the compiler.  An
+        # explicit ``caller`` parameter may already be filled positionally.
+        found_caller = "caller" in self.arguments[:off]
 
         # if the number of arguments consumed is not the number of
         # arguments expected we start filling in keyword arguments
